@@ -17,7 +17,7 @@ PROP = 'C10'
 MANIFEST = dict(
     text="Bounded symbolic model checking of AsyncDispatcher.dispatch on batches under EVERY interleaving: methods, a middleware and an error handler are coroutines that suspend on fresh futures; "
          "a driver resolves one pending future per step, chosen by a symbolic integer, so the solver's path tree enumerates the schedules (2 x 2, 3 x 1, 3 x 2 [90 schedules], 4 x 1 elements x suspension points in the quick tier; 4 x 2 [2520], 3 x 3 [1680], 5 x 1 in the thorough tier) "
-         "and exhaustion = all schedules. Elements include failing ones, notifications and plain non-coroutine methods; ids are symbolic. "
+         "and exhaustion = all schedules. Elements include failing ones, notifications, plain non-coroutine methods and methods of a context-less class-based view that keep per-call state on self across a suspension; ids are symbolic. "
          "Handler table: a catch-all handler plus one handler per failing element's error code (each must run exactly once, for its own element). Oracle: response array in request order, each with its own id and own result / error, every method ran exactly once; with concurrent_batch=False at most one element in flight and start order == request order.",
     ref='5 C10',
     note="Real asyncio event loop (trusted). The driver waits a fixed number of loop turns before each choice; if a task were slower to reach its next suspension point than that, fewer (never wrong) schedules would be explored. "
@@ -63,6 +63,9 @@ def obligations(tier):
                     continue
                 obs.append({'h': 'sched', 'els': list(kinds), 'points': 1, 'site': site, 'conc': conc,
                             '_weight': 200, '_budget': 300.0})
+            if site == 'method':
+                for kinds in (('view', 'view'), ('view', 'co', 'view'), ('view', 'view', 'view')):
+                    obs.append({'h': 'sched', 'els': list(kinds), 'points': 1 if len(kinds) == 3 else 2, 'site': site, 'conc': conc, '_weight': 10})
             if tier == 'thorough':
                 for kinds in (('co', 'fail', 'co', 'notif'), ('fail', 'co', 'co', 'co')):
                     if site == 'handler':
@@ -131,6 +134,16 @@ def h_sched(ob):
             ran.append(i)
             return ['val', i]
 
+        class V(pjrpc.server.ViewMixin):
+            # a class-based view registered WITHOUT context that keeps per-call state on self across a suspension
+            async def vw(self, i):
+                ran.append(i)
+                self.val = ['val', i]
+                if site == 'method':
+                    for p in range(points):
+                        await suspend(('m', i, p))
+                return self.val
+
         async def mw(request, context, handler):
             i = request.params[0]
             trace.append(('start', i))
@@ -164,9 +177,10 @@ def h_sched(ob):
         d.add(co, name='co')
         d.add(fail, name='fail')
         d.add(plain, name='plain')
+        d.registry.view(V)
         docs = []
         for i, k in enumerate(ob['els']):
-            doc = {'jsonrpc': '2.0', 'method': 'co' if k == 'notif' else k, 'params': [i]}
+            doc = {'jsonrpc': '2.0', 'method': 'co' if k == 'notif' else ('vw' if k == 'view' else k), 'params': [i]}
             if ids[i] is not None:
                 doc['id'] = ids[i]
             docs.append(doc)
